@@ -875,6 +875,8 @@ impl CatalogPersistence {
         std::fs::rename(&tmp_path, path).wrap_err_with(|| {
             format!("failed to move catalog file into place at '{}'", path.display())
         })?;
+        #[cfg(kahflane_turdb_verif)]
+        crate::verif_hooks::io_event(7, path, 0, 0);
 
         // Make the rename itself durable (best effort: a directory cannot be opened everywhere).
         if let Some(dir) = path.parent() {
